@@ -32,10 +32,10 @@ ALLOW = {"offd": F.ALL_DISCRETE_OFFLINE - {"fn"}, "ond": F.PAST_ONLY - {"fn"},
 REGIONS = {}
 
 
-def run_impl(mon, text, vs, data, n, sem, io, struct=()):
+def run_impl(mon, text, vs, data, n, sem, io, struct=(), extra_decl=()):
     def go():
         from ..msgs import Msg
-        spec = impl.make_spec("bothd", impl.struct_text(text, struct), vs, semantics=SEMS[sem], io=io, struct=struct)
+        spec = impl.make_spec("bothd", impl.struct_text(text, struct), vs, semantics=SEMS[sem], io=io, struct=struct, extra_decl=extra_decl)
         spec.parse()
         if mon == "offd":
             ds = {"time": list(range(n))}
@@ -57,6 +57,30 @@ def gen_case(rng):
     n = rng.randint(1, 10)
     # some variables are objects of a user-defined type, read through a field (`a.value`)
     struct = sorted(v for v in vs if rng.random() < 0.5) if rng.random() < 0.3 else []
+    if rng.random() < 0.3 and mon in ("offd", "ond"):
+        # a named arithmetic sub-expression compared several times: the variable sets of a predicate are built from those of its
+        # operands, and the node of the name is shared by all its occurrences
+        gt = F.Gen(rng, VARS, {"arith"}, max_bound=1)
+        for _ in range(20):
+            t = gt.term(2)
+            if F.variables(t) and t[0] != "v":
+                break
+
+        def pred():
+            other = ("v", rng.choice(VARS)) if rng.random() < 0.6 else ("c", rng.choice([0.0, 1.0, 2.0]))
+            return ("b", rng.choice(F.CMP), ("v", "p0"), other) if rng.random() < 0.7 else ("b", rng.choice(F.CMP), other, ("v", "p0"))
+        body = pred()
+        for _ in range(rng.randint(1, 2)):
+            body = ("b", rng.choice(["and", "or", "implies"]), body, pred()) if rng.random() < 0.5 else ("b", rng.choice(["and", "or"]), pred(), body)
+        if rng.random() < 0.5:
+            body = ("t1", rng.choice(["hist", "once"]), body)
+        from ..modular import subst
+        f = subst(body, {"p0": t})
+        vs = F.variables(f)
+        if t[0] != "v" and vs:
+            io = {v: rng.choice(["input", "output"]) for v in vs if rng.random() < 0.9}
+            return {"monitor": mon, "f": f, "vars": vs, "io": io, "sem": sem, "n": n, "data": F.gen_trace(rng, vs, n), "struct": [],
+                    "text": "p0 = %s;\nout = %s" % (F.to_text(t), F.to_text(body)), "extra_decl": ["p0"]}
     return {"monitor": mon, "f": f, "vars": vs, "io": io, "sem": sem, "n": n, "data": F.gen_trace(rng, vs, n), "struct": struct}
 
 
@@ -82,17 +106,20 @@ def model(cases):
 
 def check_case(ctx, case, m):
     f, mon, n, data, vs = case["f"], case["monitor"], case["n"], case["data"], case["vars"]
-    text = "out = " + F.to_text(f)
+    text = case.get("text") or "out = " + F.to_text(f)
+    extra = case.get("extra_decl") or ()
+    if extra:
+        ctx.count("named-term")
     struct = case.get("struct") or []
     if struct:
         ctx.count("struct-typed variables")
-    out = run_impl(mon, text, vs, data, n, case["sem"], case["io"], struct)
-    rep = {"struct": struct, "monitor": mon, "semantics": case["sem"], "io": case["io"], "spec": text, "formula": F.to_proto(f), "data": data, "n": n,
+    out = run_impl(mon, text, vs, data, n, case["sem"], case["io"], struct, extra)
+    rep = {"text": case.get("text"), "extra_decl": list(extra), "struct": struct, "monitor": mon, "semantics": case["sem"], "io": case["io"], "spec": text, "formula": F.to_proto(f), "data": data, "n": n,
            "transformed": F.to_proto(case["tf"]), "impl": out, "model": m}
     if out[0] != "ok":
         return Violation("%s monitor, %s semantics, io=%r raised %r: %s" % (mon, case["sem"], case["io"], out[1:], text), rep, stream="ia"), None
     vals = out[1]
-    std = run_impl(mon, text, vs, data, n, "standard", {}, struct)
+    std = run_impl(mon, text, vs, data, n, "standard", {}, struct, extra)
     ctx.evaluations += 1
     if std[0] == "ok" and (disc.nontrivial(vals) or not same_vals(vals, std[1])):
         ctx.nontrivial.add((mon, case["sem"], tuple(sorted(case["io"].items())), text, tuple((k, tuple(v)) for k, v in sorted(data.items()))))
@@ -148,14 +175,15 @@ def replay(ctx, obj):
         return dense.replay_ia(ctx, obj)
     f = F.from_proto(obj["formula"])
     c = {"monitor": obj["monitor"], "f": f, "vars": F.variables(f) or ["a"], "io": obj["io"], "sem": obj["semantics"], "n": obj["n"],
-         "data": {k: [float(x) for x in v] for k, v in obj["data"].items()}, "struct": obj.get("struct") or []}
+         "data": {k: [float(x) for x in v] for k, v in obj["data"].items()}, "struct": obj.get("struct") or [],
+         "text": obj.get("text"), "extra_decl": obj.get("extra_decl") or []}
     m, = model([c])
     v, d = check_case(Ctx(ctx.id, ctx.tier, ctx.seed), c, m)
     return (v is None), (v.what if v else "IA result agrees with the model on the replayed case")
 
 
 def run(ctx):
-    explore(ctx, ctx.subrng("ia"), ctx.budget(400, 6000))
+    explore(ctx, ctx.subrng("ia"), ctx.budget(700, 8000))
     if not ctx.violations:
         try:
             from .. import dense
